@@ -112,6 +112,14 @@ func (s *streamWriter) Invoke(msgs []actor.Envelope) {
 		})
 	}
 
+	// Everything in the batch can have been dropped above. There is nothing to
+	// send then, and there may not even be a stream yet: the writer is registered
+	// and takes messages while it is still dialing, and anybody who knows its id
+	// can send it something that is not a delivery.
+	if len(messages) == 0 {
+		return
+	}
+
 	env := &Envelope{
 		Senders:   senders,
 		Targets:   targets,
